@@ -22,10 +22,12 @@ META = {
     "bounds": {"quick": "shape family: 1 step (2 states); SLAM n=3: 5 steps; id pool of 4", "thorough": "5 steps everywhere; SLAM n in {3,6}; id pool of 6"},
 }
 
-ID_POOL = [7, -5, 1000, 2**40, 3, 2**63 - 1]
+ID_POOL = [7, 0, -5, 2**40, 1000, 2**63 - 1]
 
 
 class VertexPerm(SQ.Rep):
+    reuse_vertex_objects = True
+
     def __init__(self, perm):
         self.perm = perm
         self.name = "vertex list permutation %r" % (perm,)
